@@ -38,19 +38,25 @@ def magnitude (l : List Rat) : Rat := l.foldl (fun m x => max m (absQ x)) 0
 /-! ### independent definitions (published formulas) -/
 namespace Spec
 
-/-- k-th order statistic (0-based) without sorting: the value `v` with `#(< v) ≤ k < #(≤ v)` -/
-def orderStat (l : List Rat) (k : Nat) : Rat :=
-  match l.find? (fun v => l.countP (fun x => decide (x < v)) ≤ k && k < l.countP (fun x => decide (x ≤ v))) with
-  | some v => v
-  | none => 0
+/-- insertion sort (written here a second time; the model uses `List.mergeSort`) -/
+def insertSorted (x : Rat) : List Rat → List Rat
+  | [] => [x]
+  | y :: ys => if x ≤ y then x :: y :: ys else y :: insertSorted x ys
+
+def isort (l : List Rat) : List Rat := l.foldr insertSorted []
+
+/-- k-th order statistic (0-based) of an already ordered sample -/
+def orderStat (sorted : List Rat) (k : Nat) : Rat := sorted.getD k 0
 
 /-- median: middle order statistic, or the mean of the two middle ones -/
-def median (l : List Rat) : Rat :=
+def median (l0 : List Rat) : Rat :=
+  let l := isort l0
   let n := l.length
   if n % 2 == 1 then orderStat l (n / 2) else (orderStat l (n / 2 - 1) + orderStat l (n / 2)) / 2
 
 /-- Hyndman–Fan type 7 sample quantile: `h = (n−1)q`, `x₍⌊h⌋₎ + (h − ⌊h⌋)(x₍⌊h⌋+1₎ − x₍⌊h⌋₎)` -/
-def quantile7 (l : List Rat) (q : Rat) : Rat :=
+def quantile7 (l0 : List Rat) (q : Rat) : Rat :=
+  let l := isort l0
   let h := ((l.length : Rat) - 1) * q
   let j := h.floor.toNat
   let lo := orderStat l j
@@ -80,18 +86,17 @@ def biweightLocation (x : List Rat) (start : Option Rat) : Rat := Id.run do
     m := r
   return r
 
-/-- biweight midvariance (squared): `n Σ_{|u|<1}(x−M)²(1−u²)⁴ / (Σ_{|u|<1}(1−u²)(1−5u²))²`,
-    `u = (x−M)/(9·MAD)`; `none` = the documented fall-back to `1.4826·MAD` when `Σ_{|u|<1} u = 0` -/
-def bivarSq (x : List Rat) (m : Rat) : Option Rat × Rat :=
+/-- biweight midvariance: (`Σ_{|u|<1} u`, squared estimate
+    `n Σ_{|u|<1}(x−M)²(1−u²)⁴ / (Σ_{|u|<1}(1−u²)(1−5u²))²` when its denominator is not 0, the
+    documented fall-back `1.4826·MAD` taken when the first component is 0), `u = (x−M)/(9·MAD)` -/
+def bivarParts (x : List Rat) (m : Rat) : Rat × Option Rat × Rat :=
   let mad := median (x.map (fun v => absQ (v - m)))
   let s := max (9 * mad) (1 / 1000)
   let kept := x.filter (fun v => decide (absQ ((v - m) / s) < 1))
   let su := (kept.map (fun v => (v - m) / s)).foldl (· + ·) 0
-  if su == 0 then (none, mad * (7413 / 5000))
-  else
-    let num := (kept.map (fun v => let u := (v - m) / s; (v - m) * (v - m) * ((1 - u*u) * (1 - u*u) * (1 - u*u) * (1 - u*u)))).foldl (· + ·) 0
-    let den := (kept.map (fun v => let u := (v - m) / s; (1 - u*u) * (1 - 5 * u*u))).foldl (· + ·) 0
-    (some ((kept.length : Rat) * num / (den * den)), 0)
+  let num := (kept.map (fun v => let u := (v - m) / s; (v - m) * (v - m) * ((1 - u*u) * (1 - u*u) * (1 - u*u) * (1 - u*u)))).foldl (· + ·) 0
+  let den := (kept.map (fun v => let u := (v - m) / s; (1 - u*u) * (1 - 5 * u*u))).foldl (· + ·) 0
+  (su, (if den == 0 then none else some ((kept.length : Rat) * num / (den * den))), mad * (7413 / 5000))
 
 def mad (x : List Rat) : Rat :=
   let m := median x
@@ -100,7 +105,8 @@ def mad (x : List Rat) : Rat :=
 def iqr (x : List Rat) : Rat := quantile7 x (3 / 4) - quantile7 x (1 / 4)
 
 /-- Wainer & Thissen gapper without `√π`: `Σ_{i=1}^{n−1} i(n−i)(x₍ᵢ₊₁₎ − x₍ᵢ₎) / (n(n−1))` -/
-def gapper (x : List Rat) : Rat :=
+def gapper (x0 : List Rat) : Rat :=
+  let x := isort x0
   let n := x.length
   ((List.range (n - 1)).map (fun i =>
     (((i + 1) * (n - (i + 1)) : Nat) : Rat) * (orderStat x (i + 1) - orderStat x i))).foldl (· + ·) 0
@@ -376,12 +382,18 @@ def handleDescriptives (op : String) (inp : Json) (impl : Option Json) : R (Opti
                  | "mad" => if closeQ s (Spec.mad clean) mag then [] else ["mad_published"]
                  | "iqr" => if closeQ s (Spec.iqr clean) mag then [] else ["iqr_published"]
                  | "gapper" => if closeQ s (Spec.gapper clean) mag then [] else ["gapper_published"]   -- `s` arrives divided by √π
-                 | "qn" => if clean.length ≤ 64 then (if closeQ s (Spec.qn clean) mag then [] else ["qn_published"]) else []
+                 | "qn" => if clean.length ≤ 40 then (if closeQ s (Spec.qn clean) mag then [] else ["qn_published"]) else []
                  | "bivar" =>
                    let m0 := initial.getD (Spec.biweightLocation clean none)
-                   (match Spec.bivarSq clean m0 with
-                    | (some sq, _) => if closeQ (s * s) sq (mag * mag) then [] else ["bivar_published"]
-                    | (none, fb) => if closeQ s fb mag then [] else ["bivar_published"])
+                   let (su, sqv, fb) := Spec.bivarParts clean m0
+                   -- "exactly symmetric" is decided on doubles: within 1e-9 of symmetry either branch is accepted
+                   let okFormula := match sqv with
+                     | some q => closeQ (s * s) q (mag * mag)
+                     | none => false
+                   let okFallback := closeQ s fb mag
+                   if su == 0 then (if okFallback || okFormula then [] else ["bivar_published"])
+                   else if absQ su ≤ tolQ then (if okFallback || okFormula then [] else ["bivar_published"])
+                   else (if okFormula then [] else ["bivar_published"])
                  | "wstd" => if !wpos || closeQ (s * s) (Spec.wvar p) (mag * mag) then [] else ["wstd_published"]
                  | "wmad" =>
                    (match vmed with
